@@ -1,6 +1,457 @@
 package main
 
-import "errors"
+// Overlay generator: instruments the packages under test from /repo's current
+// working tree (nothing is written to /repo). See DESIGN.md 2.1.
+//
+//  1. import rewrite: "sync" -> verifshim/vsync, "sync/atomic" ->
+//     verifshim/vatomic (local names kept);
+//  2. a scheduling point before every statement that (shallowly) contains a
+//     channel send, a channel receive, close(...), a go statement or a select;
+//  3. go statements: the new goroutine starts with a scheduling point;
+//  4. select statements with two or more communication cases become priority
+//     selects (cases tried in an order obtained from the scheduler, default
+//     source order, then the original blocking select);
+//  5. virtual packages verifshim/{vsched,vsync,vatomic} and test-only exports.
+//
+// The instrumentation is text splicing guided by the AST, so line numbers of
+// the original code are preserved.
 
-// genOverlay is replaced by the real instrumentation generator.
-func genOverlay(dir string) (string, error) { return "", errors.New("not implemented") }
+import (
+	"encoding/json"
+	"fmt"
+	"go/ast"
+	"go/parser"
+	"go/token"
+	"os"
+	"path/filepath"
+	"sort"
+	"strconv"
+	"strings"
+)
+
+var instrPackages = []string{"dagsync", "dagsync/ipnisync", "announce", "pcache"}
+
+const shimBase = "github.com/ipni/go-libipni/verifshim/"
+
+type edit struct {
+	start, end int
+	prio       int // order among edits at the same start: lower first
+	gen        func() string
+}
+
+type fileInstr struct {
+	fset  *token.FileSet
+	src   []byte
+	name  string
+	edits []edit
+	n     struct{ points, spawns, selects, skippedSelects int }
+}
+
+func (fi *fileInstr) off(p token.Pos) int { return fi.fset.Position(p).Offset }
+func (fi *fileInstr) line(p token.Pos) int { return fi.fset.Position(p).Line }
+
+// transform renders src[lo:hi] with the edits inside applied (recursively).
+func (fi *fileInstr) transform(lo, hi int) string {
+	var b strings.Builder
+	cur := lo
+	for _, e := range fi.edits {
+		if e.start < lo || e.end > hi {
+			continue
+		}
+		if e.start < cur {
+			continue // inside a region already replaced; handled by that edit's gen
+		}
+		if e.start == lo && e.end == hi && hi > lo {
+			// the range is itself an edit's region: only at top level call
+		}
+		b.Write(fi.src[cur:e.start])
+		b.WriteString(e.gen())
+		cur = e.end
+	}
+	b.Write(fi.src[cur:hi])
+	return b.String()
+}
+
+// shallowChanOp reports whether the statement itself (not nested blocks or
+// function literals) performs a channel operation, close, go or select.
+func shallowChanOp(s ast.Stmt) (bool, string) {
+	switch s.(type) {
+	case *ast.SendStmt:
+		return true, "send"
+	case *ast.GoStmt:
+		return true, "go"
+	case *ast.SelectStmt:
+		return true, "select"
+	}
+	found := ""
+	var exprs []ast.Node
+	switch x := s.(type) {
+	case *ast.ExprStmt:
+		exprs = append(exprs, x.X)
+	case *ast.AssignStmt:
+		for _, e := range x.Rhs {
+			exprs = append(exprs, e)
+		}
+		for _, e := range x.Lhs {
+			exprs = append(exprs, e)
+		}
+	case *ast.ReturnStmt:
+		for _, e := range x.Results {
+			exprs = append(exprs, e)
+		}
+	case *ast.IfStmt:
+		if x.Init != nil {
+			exprs = append(exprs, x.Init)
+		}
+		exprs = append(exprs, x.Cond)
+	case *ast.SwitchStmt:
+		if x.Init != nil {
+			exprs = append(exprs, x.Init)
+		}
+		if x.Tag != nil {
+			exprs = append(exprs, x.Tag)
+		}
+	case *ast.DeclStmt:
+		exprs = append(exprs, x.Decl)
+	case *ast.IncDecStmt:
+		exprs = append(exprs, x.X)
+	case *ast.DeferStmt:
+		// the deferred call's arguments are evaluated now; its body later
+		for _, a := range x.Call.Args {
+			exprs = append(exprs, a)
+		}
+	case *ast.RangeStmt:
+		exprs = append(exprs, x.X)
+	}
+	for _, e := range exprs {
+		ast.Inspect(e, func(n ast.Node) bool {
+			switch y := n.(type) {
+			case *ast.FuncLit:
+				return false
+			case *ast.UnaryExpr:
+				if y.Op == token.ARROW {
+					found = "recv"
+				}
+			case *ast.CallExpr:
+				if id, ok := y.Fun.(*ast.Ident); ok && id.Name == "close" && len(y.Args) == 1 {
+					found = "close"
+				}
+			}
+			return true
+		})
+	}
+	return found != "", found
+}
+
+func hasLabel(stmts []ast.Stmt) bool {
+	found := false
+	for _, s := range stmts {
+		ast.Inspect(s, func(n ast.Node) bool {
+			if _, ok := n.(*ast.LabeledStmt); ok {
+				found = true
+			}
+			if _, ok := n.(*ast.FuncLit); ok {
+				return false
+			}
+			return true
+		})
+	}
+	return found
+}
+
+func simpleArgs(args []ast.Expr) bool {
+	for _, a := range args {
+		switch x := a.(type) {
+		case *ast.Ident, *ast.BasicLit:
+		case *ast.SelectorExpr:
+			if _, ok := x.X.(*ast.Ident); !ok {
+				return false
+			}
+		default:
+			return false
+		}
+	}
+	return true
+}
+
+func (fi *fileInstr) label(p token.Pos, what string) string {
+	return strconv.Quote(fmt.Sprintf("%s:%d %s", fi.name, fi.line(p), what))
+}
+
+func (fi *fileInstr) stmtList(list []ast.Stmt, labeled map[ast.Stmt]bool) {
+	for _, s := range list {
+		target := s
+		if ls, ok := s.(*ast.LabeledStmt); ok {
+			target = ls.Stmt
+			labeled[target] = true
+		}
+		if ok, what := shallowChanOp(target); ok {
+			pos := fi.off(target.Pos())
+			lbl := fi.label(target.Pos(), what)
+			fi.edits = append(fi.edits, edit{start: pos, end: pos, prio: 0, gen: func() string { return "vsched.Point(" + lbl + "); " }})
+			fi.n.points++
+		}
+	}
+}
+
+func (fi *fileInstr) walk(f *ast.File) {
+	labeled := map[ast.Stmt]bool{}
+	ast.Inspect(f, func(n ast.Node) bool {
+		switch x := n.(type) {
+		case *ast.BlockStmt:
+			fi.stmtList(x.List, labeled)
+		case *ast.CaseClause:
+			fi.stmtList(x.Body, labeled)
+		case *ast.CommClause:
+			fi.stmtList(x.Body, labeled)
+		case *ast.GoStmt:
+			if fl, ok := x.Call.Fun.(*ast.FuncLit); ok {
+				pos := fi.off(fl.Body.Lbrace) + 1
+				lbl := fi.label(x.Pos(), "spawned")
+				fi.edits = append(fi.edits, edit{start: pos, end: pos, prio: 0, gen: func() string { return " vsched.Point(" + lbl + "); " }})
+				fi.n.spawns++
+			} else if simpleArgs(x.Call.Args) {
+				cs, ce := fi.off(x.Call.Pos()), fi.off(x.Call.End())
+				gs := fi.off(x.Pos())
+				lbl := fi.label(x.Pos(), "spawned")
+				fi.edits = append(fi.edits, edit{start: gs, end: ce, prio: 1, gen: func() string {
+					return "go func() { vsched.Point(" + lbl + "); " + fi.transform(cs, ce) + " }()"
+				}})
+				fi.n.spawns++
+			}
+		case *ast.SelectStmt:
+			var comm []*ast.CommClause
+			for _, c := range x.Body.List {
+				cc := c.(*ast.CommClause)
+				if cc.Comm != nil {
+					comm = append(comm, cc)
+				}
+			}
+			if len(comm) < 2 {
+				return true
+			}
+			skip := labeled[x]
+			for _, cc := range comm {
+				if hasLabel(cc.Body) {
+					skip = true
+				}
+			}
+			if skip {
+				fi.n.skippedSelects++
+				return true
+			}
+			allTerminate := true
+			for _, c := range x.Body.List {
+				body := c.(*ast.CommClause).Body
+				if len(body) == 0 {
+					allTerminate = false
+					continue
+				}
+				switch last := body[len(body)-1].(type) {
+				case *ast.ReturnStmt:
+				case *ast.ExprStmt:
+					call, ok := last.X.(*ast.CallExpr)
+					id, ok2 := (ast.Expr)(nil), false
+					if ok {
+						id, ok2 = call.Fun, true
+					}
+					if nm, ok3 := id.(*ast.Ident); !ok || !ok2 || !ok3 || nm.Name != "panic" {
+						allTerminate = false
+					}
+				default:
+					allTerminate = false
+				}
+			}
+			ss, se := fi.off(x.Pos()), fi.off(x.End())
+			lbl := fi.label(x.Pos(), "select")
+			ncomm := len(comm)
+			fi.edits = append(fi.edits, edit{start: ss, end: se, prio: 1, gen: func() string {
+				var b strings.Builder
+				fmt.Fprintf(&b, "{ _vsTaken := false; _vsOrd := vsched.SelectOrder(%s, %d); ", lbl, ncomm)
+				for k := 0; k < ncomm; k++ {
+					fmt.Fprintf(&b, "if !_vsTaken { switch _vsOrd[%d] { ", k)
+					for i, cc := range comm {
+						commTxt := fi.transform(fi.off(cc.Comm.Pos()), fi.off(cc.Comm.End()))
+						bodyTxt := fi.transform(fi.off(cc.Colon)+1, fi.off(cc.End()))
+						fmt.Fprintf(&b, "case %d: select { case %s: _vsTaken = true; %s\ndefault: }; ", i, commTxt, bodyTxt)
+					}
+					b.WriteString("} }; ")
+				}
+				if allTerminate {
+					// every clause ends in return: nothing flows past a taken case, and the
+					// block must end in the select to stay a terminating statement
+					b.WriteString("_ = _vsTaken; ")
+					b.WriteString(fi.transformInner(ss, se))
+					b.WriteString(" }")
+					return b.String()
+				}
+				b.WriteString("if !_vsTaken { ")
+				// the original select, with the edits inside its clauses applied
+				b.WriteString(fi.transformInner(ss, se))
+				b.WriteString(" } }")
+				return b.String()
+			}})
+			fi.n.selects++
+		}
+		return true
+	})
+}
+
+// transformInner renders [lo,hi) applying only edits strictly inside it (not
+// the edit that covers exactly [lo,hi)).
+func (fi *fileInstr) transformInner(lo, hi int) string {
+	var b strings.Builder
+	cur := lo
+	for _, e := range fi.edits {
+		if e.start < lo || e.end > hi || (e.start == lo && e.end == hi) {
+			continue
+		}
+		if e.start == lo && e.end == lo {
+			continue // the point before the statement itself is emitted outside
+		}
+		if e.start < cur {
+			continue
+		}
+		b.Write(fi.src[cur:e.start])
+		b.WriteString(e.gen())
+		cur = e.end
+	}
+	b.Write(fi.src[cur:hi])
+	return b.String()
+}
+
+func instrumentFile(path, name string) (string, *fileInstr, error) {
+	src, err := os.ReadFile(path)
+	if err != nil {
+		return "", nil, err
+	}
+	fset := token.NewFileSet()
+	f, err := parser.ParseFile(fset, path, src, parser.ParseComments)
+	if err != nil {
+		return "", nil, err
+	}
+	fi := &fileInstr{fset: fset, src: src, name: name}
+	// import rewrite
+	needSched := false
+	for _, im := range f.Imports {
+		p, _ := strconv.Unquote(im.Path.Value)
+		var repl, local string
+		switch p {
+		case "sync":
+			repl, local = shimBase+"vsync", "sync"
+		case "sync/atomic":
+			repl, local = shimBase+"vatomic", "atomic"
+		default:
+			continue
+		}
+		ps, pe := fi.off(im.Path.Pos()), fi.off(im.Path.End())
+		txt := strconv.Quote(repl)
+		if im.Name == nil {
+			txt = local + " " + txt
+		}
+		t := txt
+		fi.edits = append(fi.edits, edit{start: ps, end: pe, prio: 1, gen: func() string { return t }})
+	}
+	fi.walk(f)
+	if fi.n.points+fi.n.spawns+fi.n.selects > 0 {
+		needSched = true
+	}
+	if needSched {
+		// add the vsched import right after the package clause
+		pos := fi.off(f.Name.End())
+		fi.edits = append(fi.edits, edit{start: pos, end: pos, prio: 0, gen: func() string {
+			return "; import vsched " + strconv.Quote(shimBase+"vsched")
+		}})
+	}
+	sort.SliceStable(fi.edits, func(i, j int) bool {
+		a, b := fi.edits[i], fi.edits[j]
+		if a.start != b.start {
+			return a.start < b.start
+		}
+		if a.prio != b.prio {
+			return a.prio < b.prio
+		}
+		return a.end > b.end
+	})
+	out := fi.transform(0, len(src))
+	// the result must parse
+	if _, err := parser.ParseFile(token.NewFileSet(), path, out, 0); err != nil {
+		return "", nil, fmt.Errorf("instrumented %s does not parse: %w", name, err)
+	}
+	return out, fi, nil
+}
+
+// genOverlay writes the instrumented files and the overlay JSON into dir and
+// returns the path of the JSON.
+func genOverlay(dir string) (string, error) {
+	os.RemoveAll(dir)
+	if err := os.MkdirAll(dir, 0o755); err != nil {
+		return "", err
+	}
+	replace := map[string]string{}
+	var stats []string
+	total := struct{ points, spawns, selects, skipped int }{}
+	for _, pkg := range instrPackages {
+		pdir := filepath.Join(repoDir, pkg)
+		ents, err := os.ReadDir(pdir)
+		if err != nil {
+			return "", fmt.Errorf("package %s: %w", pkg, err)
+		}
+		for _, e := range ents {
+			n := e.Name()
+			if e.IsDir() || !strings.HasSuffix(n, ".go") || strings.HasSuffix(n, "_test.go") {
+				continue
+			}
+			out, fi, err := instrumentFile(filepath.Join(pdir, n), n)
+			if err != nil {
+				return "", err
+			}
+			dst := filepath.Join(dir, strings.ReplaceAll(pkg, "/", "_"), n)
+			os.MkdirAll(filepath.Dir(dst), 0o755)
+			if err := os.WriteFile(dst, []byte(out), 0o644); err != nil {
+				return "", err
+			}
+			replace[filepath.Join(pdir, n)] = dst
+			total.points += fi.n.points
+			total.spawns += fi.n.spawns
+			total.selects += fi.n.selects
+			total.skipped += fi.n.skippedSelects
+		}
+	}
+	stats = append(stats, fmt.Sprintf("points=%d spawns=%d priority-selects=%d selects-left-uncontrolled=%d", total.points, total.spawns, total.selects, total.skipped))
+	// virtual shim packages
+	for _, sp := range []string{"vsched", "vsync", "vatomic"} {
+		sdir := filepath.Join(verifDir, "shim", sp)
+		ents, err := os.ReadDir(sdir)
+		if err != nil {
+			return "", err
+		}
+		for _, e := range ents {
+			if strings.HasSuffix(e.Name(), ".go") {
+				replace[filepath.Join(repoDir, "verifshim", sp, e.Name())] = filepath.Join(sdir, e.Name())
+			}
+		}
+	}
+	// test-only exports: shim/export/<pkg path with _>/*.go are added to the package
+	edir := filepath.Join(verifDir, "shim", "export")
+	if pkgs, err := os.ReadDir(edir); err == nil {
+		for _, p := range pkgs {
+			if !p.IsDir() {
+				continue
+			}
+			files, _ := os.ReadDir(filepath.Join(edir, p.Name()))
+			for _, f := range files {
+				if strings.HasSuffix(f.Name(), ".go") {
+					replace[filepath.Join(repoDir, strings.ReplaceAll(p.Name(), "_", "/"), f.Name())] = filepath.Join(edir, p.Name(), f.Name())
+				}
+			}
+		}
+	}
+	data, _ := json.MarshalIndent(map[string]any{"Replace": replace}, "", " ")
+	jp := filepath.Join(dir, "overlay.json")
+	if err := os.WriteFile(jp, data, 0o644); err != nil {
+		return "", err
+	}
+	os.WriteFile(filepath.Join(dir, "stats.txt"), []byte(strings.Join(stats, "\n")+"\n"), 0o644)
+	return jp, nil
+}
